@@ -330,22 +330,22 @@ first key `≥ Limit`, exclusive) for a data block, `sliceIndex` (… inclusive)
 with a non-nil `Start` (see the example below: a later `Seek` reports corruption). -/
 theorem block_iter_slice_refines_cursor {cmp : Bytes → Bytes → Ordering} (hc : LawfulCmp cmp) (ri : Nat)
     (kvs : List KV) (hs : SmallKV kvs) (hsorted : StrictSorted cmp kvs) (hsz : (Block.build ri kvs).length < 2 ^ 32)
-    (sl : BRange) (inclLimit : Bool) (hne : kvs ≠ [] ∨ sl.start = none) (cs : List (Call Bytes)) :
+    (sl : BRange) (inclLimit : Bool) (cs : List (Call Bytes)) :
     ∃ b, Block.read (Block.build ri kvs) = some b ∧
       BIter.run cmp b (newBlockIter cmp b (some sl) inclLimit) cs =
         ((Cursor.run (sliceOf cmp sl inclLimit kvs) (geK cmp) .soi cs).map fun o => (o.isSome, o)) ∧
       (BIter.exec cmp b (newBlockIter cmp b (some sl) inclLimit) cs).err = none :=
-  ⟨_, read_build_layout ri kvs hsz, run_slice (layout_build ri kvs hs hsz) hc hsorted sl inclLimit hne cs⟩
+  ⟨_, read_build_layout ri kvs hsz, run_slice (layout_build ri kvs hs hsz) hc hsorted sl inclLimit cs⟩
 
 /-- … for a data block (`inclLimit = false`) the slice is the sub-list of the pairs with `Start ≤ key < Limit` -/
 theorem block_iter_range_refines_cursor {cmp : Bytes → Bytes → Ordering} (hc : LawfulCmp cmp) (ri : Nat)
     (kvs : List KV) (hs : SmallKV kvs) (hsorted : StrictSorted cmp kvs) (hsz : (Block.build ri kvs).length < 2 ^ 32)
-    (sl : BRange) (hne : kvs ≠ [] ∨ sl.start = none) (cs : List (Call Bytes)) :
+    (sl : BRange) (cs : List (Call Bytes)) :
     ∃ b, Block.read (Block.build ri kvs) = some b ∧
       BIter.run cmp b (newBlockIter cmp b (some sl) false) cs =
         ((Cursor.run (kvs.filter (inRange cmp sl.start sl.limit)) (geK cmp) .soi cs).map fun o => (o.isSome, o)) ∧
       (BIter.exec cmp b (newBlockIter cmp b (some sl) false) cs).err = none := by
-  obtain ⟨b, hb, hrun, herr⟩ := block_iter_slice_refines_cursor hc ri kvs hs hsorted hsz sl false hne cs
+  obtain ⟨b, hb, hrun, herr⟩ := block_iter_slice_refines_cursor hc ri kvs hs hsorted hsz sl false cs
   refine ⟨b, hb, ?_, herr⟩
   rw [hrun]
   simp only [sliceOf, Bool.false_eq_true, if_false]
@@ -358,7 +358,7 @@ example : ∃ b, Block.read (Block.build 2 exKVs) = some b ∧
         [.last, .prev, .prev, .prev, .next, .seek [], .seek [3], .prev]).map (fun r => r.2.map (·.1)) =
       [some [2], some [1, 2, 3], some [1, 2], none, some [1, 2], some [1, 2], none, some [2]] := by
   obtain ⟨b, hb, hrun, _⟩ := block_iter_range_refines_cursor bytesCompare_lawful 2 exKVs exKVs_small exKVs_sorted
-    (by decide +kernel) ⟨some [1, 2], some [3]⟩ (Or.inl (by decide))
+    (by decide +kernel) ⟨some [1, 2], some [3]⟩
     [.last, .prev, .prev, .prev, .next, .seek [], .seek [3], .prev]
   exact ⟨b, hb, by rw [hrun]; decide⟩
 
@@ -368,15 +368,21 @@ example : ∃ b, Block.read (Block.build 1 exKVs) = some b ∧
         [.last, .next, .prev, .prev, .first]).map (fun r => r.2.map (·.1)) =
       [some [3], none, some [3], some [2], some [1, 2]] := by
   obtain ⟨b, hb, hrun, _⟩ := block_iter_slice_refines_cursor bytesCompare_lawful 1 exKVs exKVs_small exKVs_sorted
-    (by decide +kernel) ⟨some [1, 2], some [2, 5]⟩ true (Or.inl (by decide)) [.last, .next, .prev, .prev, .first]
+    (by decide +kernel) ⟨some [1, 2], some [2, 5]⟩ true [.last, .next, .prev, .prev, .first]
   exact ⟨b, hb, by rw [hrun]; decide⟩
 
--- the excluded case is real (known finding of C13): on an EMPTY block sliced with a non-nil `Start`, `Seek` makes
--- `block.seek` run with `rstart = rlimit = restartsLen`, read the restart COUNT (1) as an offset, and `Next` reports
--- "entries offset not aligned" (1 ≠ offsetLimit = 0) instead of "no such key"
+-- the case the theorems used to exclude (defect D57, repaired): on an EMPTY block sliced with a non-nil `Start`, `Seek`
+-- makes `block.seek` run with `rstart = rlimit = restartsLen`; the code as found read the restart COUNT (1) as an offset
+-- and `Next` reported "entries offset not aligned" (1 ≠ offsetLimit = 0) on an undamaged table.  `block.seek` now returns
+-- `restartsOffset` for an index behind the last restart point (`Gen.blockSeekGuardsIndex`), the hypothesis
+-- `kvs ≠ [] ∨ sl.start = none` is gone from the two theorems above, and the walk finds nothing, without an error:
 example : (Block.read (Block.build 16 [])).map (fun b =>
     (BIter.exec bytesCompare b (newBlockIter bytesCompare b (some ⟨some [1], none⟩) false) [.seek [2]]).err)
-      = some (some .corrupted) := by decide +kernel
+      = some none := by decide +kernel
+
+/-- the guard is in the source (`tools/extract`: `if index >= b.restartsLen { return index, b.restartsOffset, nil }`
+    before the read of the restart array in `block.seek`) -/
+theorem code_block_seek_guards_index : Gen.blockSeekGuardsIndex = true := by decide
 
 /-! ## (g) damage -/
 
@@ -733,7 +739,7 @@ def GoLevel.C13.theorems : List String :=
    "GoLevel.C13.table_range_spec", "GoLevel.C13.table_find_spec", "GoLevel.C13.table_get_spec", "GoLevel.C13.offsetOf_monotone",
    "GoLevel.C13.filter_partition", "GoLevel.C13.table_filtered_find_stored", "GoLevel.C13.block_damage_detected",
    "GoLevel.C13.block_iter_refines_cursor", "GoLevel.C13.block_iter_slice_refines_cursor",
-   "GoLevel.C13.block_iter_range_refines_cursor", "GoLevel.C13.code_reader_repaired",
+   "GoLevel.C13.block_iter_range_refines_cursor", "GoLevel.C13.code_block_seek_guards_index", "GoLevel.C13.code_reader_repaired",
    "GoLevel.C13.damaged_metaindex_block_costs_only_the_filter", "GoLevel.C13.damaged_metaindex_costs_only_the_filter",
    "GoLevel.C13.footer_handles_in_file", "GoLevel.C13.short_block_is_corruption"]
 
